@@ -81,6 +81,8 @@ def stage_sources(bdir):
     ap = os.path.join(REPO, "applis", "eperftool")
     if os.path.isdir(ap):
         shutil.copytree(ap, os.path.join(bdir, "eperftool"))
+        # second copy at the repository's relative position (its sources include "../../src/...")
+        shutil.copytree(ap, os.path.join(bdir, "applis", "eperftool"))
     return src
 
 
@@ -277,3 +279,31 @@ def save_replay(pid, name, files):
         shutil.copy(src, dst)
         out.append(dst)
     return out[0] if out else d
+
+
+API_FUNCS = ["of_create_codec_instance", "of_release_codec_instance", "of_set_fec_parameters", "of_set_callback_functions",
+             "of_build_repair_symbol", "of_decode_with_new_symbol", "of_set_available_symbols", "of_finish_decoding",
+             "of_is_decoding_complete", "of_get_source_symbols_tab", "of_get_control_parameter", "of_set_control_parameter",
+             "of_more_about"]
+
+
+def build_eperf_shim(bdir, objs):
+    """eperftool of the staged tree, with every public API call routed through harness/eperf_shim.c"""
+    ed = os.path.join(bdir, "applis", "eperftool")
+    odir = os.path.join(bdir, "obj_eperf")
+    os.makedirs(odir, exist_ok=True)
+    base = ["clang", "-c", "-O1", "-g", "-fno-omit-frame-pointer", "-DOPENFEC_LITTLE_ENDIAN", "-DOF_VERIF", "-w", "-fsanitize=address"]
+    ren = ["-D%s=shim_%s" % (f, f) for f in API_FUNCS]
+    jobs, eobjs = [], []
+    for f in sorted(glob.glob(os.path.join(ed, "*.c"))):
+        o = os.path.join(odir, os.path.basename(f)[:-2] + ".o")
+        eobjs.append(o)
+        jobs.append(base + ren + [f, "-o", o])
+    so = os.path.join(odir, "eperf_shim.o")
+    jobs.append(base + ["-I" + os.path.join(bdir, "src"), "-I" + os.path.join(bdir, "applis"), os.path.join(HARNESS, "eperf_shim.c"), "-o", so])
+    with cf.ThreadPoolExecutor(NCPU) as ex:
+        list(ex.map(_cc, jobs))
+    out = os.path.join(bdir, "eperftool_shim")
+    _cc(["clang", "-fsanitize=address", "-g"] + eobjs + [so] + list(objs) +
+        ["-lm", "-o", out, "-Wl,--wrap=malloc,--wrap=calloc,--wrap=realloc,--wrap=free"])
+    return out
